@@ -211,7 +211,7 @@ func baselineRTMP(p *kernel.Plan) (*rbase, string) {
 		if from.HsErr != nil {
 			return nil, "baseline handshake failed: " + from.HsErr.Error()
 		}
-		if len(to.Recv) != len(from.Sent) || !isOneOf(to.RecvErr, io.EOF) {
+		if len(to.Recv) != len(from.Sent) || !isOneOf(to.RecvErr, io.EOF, io.ErrUnexpectedEOF) {
 			return nil, fmt.Sprintf("baseline %s>%s: sent %d received %d err %v", from.Name, to.Name, len(from.Sent), len(to.Recv), to.RecvErr)
 		}
 		for i := range to.Recv {
